@@ -105,7 +105,7 @@ func TestVerif_C03(t *testing.T) {
 	defer r.Write()
 	maxTries := 3
 	depth := verifmc.Pick(5, 8)
-	r.Rule = fmt.Sprintf("BFS (depth %d) over histories on a forest of up to %d tries related by Snapshot (snapshots of snapshots included): put/delete/clearPrefix on keys 01,0100,0101 (from populated bases also 0102 and 10) with values 01 and a 40-byte value (inline in V0, hashed in V1), raising any trie to V1, hashing any trie; states deduplicated on the full private dump of all tries including node sharing; after every operation every trie of the forest must have the contents and the independent spec root of its own model", depth, maxTries)
+	r.Rule = fmt.Sprintf("BFS (depth %d) over histories on a forest of up to %d tries related by Snapshot (snapshots of snapshots included): put/delete/clearPrefix on keys 01,0100,0101 (from populated bases also 0102 and 10) with values 01 and a 40-byte value (inline in V0, hashed in V1; every second trie of the forest writes a different 40-byte value), raising any trie to V1, hashing any trie; states deduplicated on the full private dump of all tries including node sharing; after every operation every trie of the forest must have the contents and the independent spec root of its own model", depth, maxTries)
 	c03Run(r, "", depth, maxTries)
 	// populated bases (a branch with a leaf and a sub-branch below it; a valued branch; hashed or not):
 	// shapes that need 3-4 puts to build are then one step from the start
@@ -157,6 +157,12 @@ func c03Run(r *verifmc.Report, seed string, depth, maxTries int) {
 				}
 				for _, k := range keys {
 					for _, v := range vals {
+						if len(v) > 32 && i%2 == 1 {
+							// every second trie of the forest writes a DIFFERENT long value: a value stored by
+							// hash is overwritten, in a snapshot, by another value stored by hash (and in a
+							// snapshot of that snapshot by the first one again)
+							v = vVal(0x41, 40)
+						}
 						ops = append(ops, c03Op{i, vTrieOp{kind: "put", k: k, v: v}})
 					}
 				}
